@@ -7,7 +7,7 @@ import pgncorr
 
 PROP_FILES = ["N2k/Props/C02.lean"] + [f"N2k/Tables/T{k:02d}.lean" for k in range(16)]
 LEAN_TARGETS = ["N2k.Props.C02"]
-SUITE_NAMES = ["gen-encoders-roundtrip", "gen-encoders-values", "gen-decoders", "gen-decoder-metadata"]
+SUITE_NAMES = ["gen-encoders-roundtrip", "gen-encoders-values", "gen-decoders", "gen-decoder-metadata", "encoder-shared-instance"]
 ASSUMPTIONS = ["exactness is proved for fields up to 48 bits; wider fields (3 definitions, named by C02_db_coverage) rest on the oracle and correspondence",
                "non-finite floats excepted (as the property states); the database has no FLOAT field in an encodable definition"]
 TRUSTED_EXTRA = ["C02: T1 translator (validated end-to-end on all 418 encoders and 442 decoders); hand models Codec/Interp tied by T3"]
@@ -19,14 +19,17 @@ def problem_relevant(p):
 
 def correspondence(ctx):
     q = ctx["tier"] == "quick"
-    return pgncorr.suite_encoders(ctx, 6 if q else 60, 2 if q else 8) + pgncorr.suite_decoders(ctx, 2 if q else 20)
+    import enccorr
+    return pgncorr.suite_encoders(ctx, 6 if q else 60, 2 if q else 8) + pgncorr.suite_decoders(ctx, 2 if q else 20) + enccorr.suite_shared_encoder(ctx)
 
 
 def search(ctx, broken, corr_broken):
     global LAST_SEARCH_CANDIDATES
     hits, n = pgncorr.roundtrip_search(ctx, 10 if ctx["tier"] == "quick" else 14)
-    LAST_SEARCH_CANDIDATES = n
-    return [{"key": k, "what": what, "replay": {"kind": "roundtrip", "function": sfx, "payload": str(x)}} for k, what, sfx, x in hits]
+    import enccorr
+    more, n2 = enccorr.monitor_shared(ctx, "C02")
+    LAST_SEARCH_CANDIDATES = n + n2
+    return [{"key": k, "what": what, "replay": {"kind": "roundtrip", "function": sfx, "payload": str(x)}} for k, what, sfx, x in hits] + more
 
 
 def standing_search(ctx):
@@ -34,6 +37,9 @@ def standing_search(ctx):
 
 
 def replay(rp):
+    if rp.get("kind") == "encoder-history":
+        import enccorr
+        return enccorr.replay_shared(rp)
     if rp.get("kind") != "roundtrip":
         return False, "not an input replay: " + str(rp.get("broken_theorems") or rp.get("broken_correspondence"))[:500]
     harness.load_repo()
